@@ -13,6 +13,11 @@ import (
 	"time"
 
 	didparser "github.com/SaoNetwork/sao-did/parser"
+	saodidtypes "github.com/SaoNetwork/sao-did/types"
+	"github.com/cosmos/cosmos-sdk/crypto/keys/secp256k1"
+	"github.com/dvsekhvalnov/jose2go/base64url"
+	"github.com/multiformats/go-multibase"
+	"encoding/json"
 	didkeeper "github.com/SaoNetwork/sao/x/did/keeper"
 	didtypes "github.com/SaoNetwork/sao/x/did/types"
 	modelmodule "github.com/SaoNetwork/sao/x/model"
@@ -81,6 +86,7 @@ type Op struct {
 	SidTs      uint64 `json:"sidTs,omitempty"`      // creation timestamp of the sid identity (fixed by the generator so that replays agree)
 	SleepMs    int    `json:"sleepMs,omitempty"`    // wall-clock delay before executing (replica offset)
 	Eth        bool   `json:"eth,omitempty"`
+	DocSid     int    `json:"docSid,omitempty"`     // sid-signed request: sign with the key of *this* identity and name its document in the kid (0 = the owner identity itself)
 	Inner      *Op    `json:"inner,omitempty"`      // sim: the transaction executed without being committed
 }
 
@@ -245,9 +251,97 @@ func keysStr(keys []*didtypes.PubKey) string {
 	return strings.Join(ks, ",")
 }
 
-// SidKeys are the (fake) public keys of sid identity `sid` at key-document version `ver`.
+// sidPriv is the signing key of sid identity `sid` at key-document version `ver`.
+func (w *World) sidPriv(sid, ver int) *secp256k1.PrivKey {
+	return secp256k1.GenPrivKeyFromSecret([]byte(fmt.Sprintf("saoverif-sid-%d-v%d", sid, ver)))
+}
+
+// SidKeys are the public keys of sid identity `sid` at key-document version `ver`: a real secp256k1
+// authentication key (multicodec 0xe7) and an x25519-shaped key-agreement key (0xec), multibase base58btc
+// as the sid resolver of sao-did expects them.
 func (w *World) SidKeys(sid, ver int) []*didtypes.PubKey {
-	return []*didtypes.PubKey{{Name: "Authentication", Value: fmt.Sprintf("auth-%d-v%d", sid, ver)}, {Name: "KeyAgreement", Value: fmt.Sprintf("agree-%d-v%d", sid, ver)}}
+	auth, _ := multibase.Encode(multibase.Base58BTC, append([]byte{0xe7, 0x01}, w.sidPriv(sid, ver).PubKey().Bytes()...))
+	h := sha256.Sum256([]byte(fmt.Sprintf("saoverif-agree-%d-v%d", sid, ver)))
+	agree, _ := multibase.Encode(multibase.Base58BTC, append([]byte{0xec, 0x01}, h[:]...))
+	return []*didtypes.PubKey{{Name: "Authentication", Value: auth}, {Name: "KeyAgreement", Value: agree}}
+}
+
+// sidDocOf is the document id under which version `ver` of identity `sid` was (or would be) registered:
+// the root document for version 1, the id computed by the last didupdate that used that key version otherwise.
+func (w *World) sidDocOf(sid, ver int) string {
+	if ver <= 1 {
+		return w.SidRoot(sid)
+	}
+	if d, ok := w.sidDoc[[2]int{sid, ver}]; ok {
+		return d
+	}
+	return "0000000000000000000000000000000000000000000000000000000000000000"
+}
+
+// sidLatestVer is the key version of the newest document in the identity's committed version list.
+func (w *World) sidLatestVer(sid int) int {
+	vl, found := w.C.App.DidKeeper.GetSidDocumentVersion(w.C.Ctx(), w.SidRoot(sid))
+	if !found || len(vl.VersionList) == 0 {
+		return 1
+	}
+	last := vl.VersionList[len(vl.VersionList)-1]
+	for k, d := range w.sidDoc {
+		if k[0] == sid && d == last {
+			return k[1]
+		}
+	}
+	return 1
+}
+
+// signSid produces a real JWS over the proposal bytes whose kid names identity `sid` as the signer DID and
+// document version `ver` of identity `docSid` as the place to find the key; the signature is made with the
+// authentication key of that document (docSid = sid is the honest case). The second result says whether this
+// is a valid signature *by a key of the DID it claims*: the named document is the current (latest) version
+// of identity `sid` in the committed store and lists the signing key.
+func (w *World) signSid(sid, docSid, ver int, p proposalApi) (saotypes.JwsSignature, bool) {
+	bz, err := p.Marshal()
+	if err != nil {
+		panic(err)
+	}
+	doc := w.sidDocOf(docSid, ver)
+	kid := w.SidDid(sid, 1) + "?versionId=" + doc + "#Authentication"
+	hb, _ := json.Marshal(saodidtypes.JWTHeader{Kid: kid, Alg: "ES256K"})
+	protected := base64url.Encode(hb)
+	input := protected + "." + base64url.Encode(bz)
+	sg, err := w.sidPriv(docSid, ver).Sign([]byte(input))
+	if err != nil {
+		panic(err)
+	}
+	ok := false
+	k := w.C.App.DidKeeper
+	if vl, found := k.GetSidDocumentVersion(w.C.Ctx(), w.SidRoot(sid)); found && len(vl.VersionList) > 0 && vl.VersionList[len(vl.VersionList)-1] == doc {
+		if d, found := k.GetSidDocument(w.C.Ctx(), doc); found {
+			ok = keysStr(d.Keys) == keysStr(w.SidKeys(docSid, ver))
+		}
+	}
+	return saotypes.JwsSignature{Protected: protected, Signature: base64url.Encode(sg)}, ok
+}
+
+// signFor signs proposal p for op: with the did:key of account op.Signer, or — when op.Sid is set — with
+// the sid identity's key of version op.KeyVer (0 = the latest committed one). Returns the signature, whether
+// it is a valid signature by the proposal's owner, and the signer DID.
+func (w *World) signFor(op *Op, owner string, p proposalApi) (saotypes.JwsSignature, bool, string) {
+	if op.Sid != 0 {
+		docSid := op.Sid
+		if op.DocSid != 0 {
+			docSid = op.DocSid
+		}
+		ver := op.KeyVer
+		if ver == 0 {
+			ver = w.sidLatestVer(docSid)
+		}
+		sig, usable := w.signSid(op.Sid, docSid, ver, p)
+		did := w.SidDid(op.Sid, 1)
+		return sig, usable && did == owner, did
+	}
+	sig := w.sign(op.Signer, p)
+	did := w.didOf1(op.Signer)
+	return sig, op.Signer != 0 && op.Signer-1 < len(w.Dids) && w.Dids[op.Signer-1].Did == owner, did
 }
 
 // SidTimestamp is the creation timestamp committed to by the root document id of identity `sid`.
@@ -552,6 +646,10 @@ func (w *World) Exec(op *Op) (Result, M) {
 		ts := uint64(int64(now) - op.TsOffset)
 		keys := w.SidKeys(op.Sid, op.KeyVer)
 		newDocId, _ := didkeeper.CalculateDocId(keys, ts)
+		if w.sidDoc == nil {
+			w.sidDoc = map[[2]int]string{}
+		}
+		w.sidDoc[[2]int{op.Sid, op.KeyVer}] = newDocId
 		sent := newDocId
 		if op.Tamper == "docid" {
 			sent = newDocId[:len(newDocId)-1] + "0"
@@ -600,6 +698,9 @@ func (w *World) Exec(op *Op) (Result, M) {
 			cidS = "not-a-cid"
 		}
 		owner := w.didOf1(op.Owner)
+		if op.Sid != 0 {
+			owner = w.SidDid(op.Sid, 1)
+		}
 		if op.OwnerRaw != "" {
 			owner = op.OwnerRaw
 		}
@@ -616,8 +717,7 @@ func (w *World) Exec(op *Op) (Result, M) {
 			Timeout: op.Timeout, Alias: op.Alias, DataId: op.DataId, CommitId: op.CommitId, Cid: cidS, Size_: op.Size,
 			Operation: op.Operation, ReadonlyDids: w.didsOf(op.RoDids), ReadwriteDids: w.didsOf(op.RwDids), PaymentDid: pay,
 		}
-		sig := w.sign(op.Signer, &p)
-		sigValid := op.Signer != 0 && op.Signer-1 < len(w.Dids) && w.Dids[op.Signer-1].Did == p.Owner
+		sig, sigValid, sigDid := w.signFor(op, p.Owner, &p)
 		switch op.Tamper {
 		case "":
 		case "duration":
@@ -641,7 +741,7 @@ func (w *World) Exec(op *Op) (Result, M) {
 		msg := &saotypes.MsgStore{Creator: creator, Proposal: p, JwsSignature: sig, Provider: w.acct1(op.Provider)}
 		out["msgProvider"] = w.Addr.ID(msg.Provider)
 		out["sigValid"] = sigValid
-		out["sigDid"] = w.DidID(w.didOf1(op.Signer))
+		out["sigDid"] = w.DidID(sigDid)
 		out["cidOk"] = okb(op.CidOk)
 		out["cid"] = w.Str.ID(cidS)
 		out["p"] = M{
@@ -702,9 +802,11 @@ func (w *World) Exec(op *Op) (Result, M) {
 		}), out
 	case "terminate":
 		owner := w.didOf1(op.Owner)
+		if op.Sid != 0 {
+			owner = w.SidDid(op.Sid, 1)
+		}
 		p := saotypes.TerminateProposal{Owner: owner, DataId: op.DataId}
-		sig := w.sign(op.Signer, &p)
-		sigValid := op.Signer != 0 && op.Signer-1 < len(w.Dids) && w.Dids[op.Signer-1].Did == p.Owner
+		sig, sigValid, sigDid := w.signFor(op, p.Owner, &p)
 		switch op.Tamper {
 		case "dataId":
 			p.DataId = op.Alias // the generator puts the substituted data id in Alias
@@ -718,7 +820,7 @@ func (w *World) Exec(op *Op) (Result, M) {
 		}
 		out["msgProvider"] = w.Addr.ID(w.acct1(op.Provider))
 		out["sigValid"] = sigValid
-		out["sigDid"] = w.DidID(w.didOf1(op.Signer))
+		out["sigDid"] = w.DidID(sigDid)
 		out["p"] = M{"owner": w.DidID(p.Owner), "dataId": bs(p.DataId)}
 		return w.runTx(func(ctx sdk.Context) (M, error) {
 			_, err := saoSrv.Terminate(sdk.WrapSDKContext(ctx), &saotypes.MsgTerminate{Creator: creator, Proposal: p, JwsSignature: sig, Provider: w.acct1(op.Provider)})
@@ -726,9 +828,11 @@ func (w *World) Exec(op *Op) (Result, M) {
 		}), out
 	case "renew":
 		owner := w.didOf1(op.Owner)
+		if op.Sid != 0 {
+			owner = w.SidDid(op.Sid, 1)
+		}
 		p := saotypes.RenewProposal{Owner: owner, Duration: op.Duration, Timeout: op.Timeout, Data: op.Data}
-		sig := w.sign(op.Signer, &p)
-		sigValid := op.Signer != 0 && op.Signer-1 < len(w.Dids) && w.Dids[op.Signer-1].Did == p.Owner
+		sig, sigValid, sigDid := w.signFor(op, p.Owner, &p)
 		switch op.Tamper {
 		case "duration":
 			p.Duration += 1
@@ -742,7 +846,7 @@ func (w *World) Exec(op *Op) (Result, M) {
 		}
 		out["msgProvider"] = w.Addr.ID(w.acct1(op.Provider))
 		out["sigValid"] = sigValid
-		out["sigDid"] = w.DidID(w.didOf1(op.Signer))
+		out["sigDid"] = w.DidID(sigDid)
 		out["p"] = M{"owner": w.DidID(p.Owner), "duration": p.Duration, "timeout": p.Timeout, "data": bsl(p.Data)}
 		return w.runTx(func(ctx sdk.Context) (M, error) {
 			r, err := saoSrv.Renew(sdk.WrapSDKContext(ctx), &saotypes.MsgRenew{Creator: creator, Proposal: p, JwsSignature: sig, Provider: w.acct1(op.Provider)})
@@ -764,9 +868,11 @@ func (w *World) Exec(op *Op) (Result, M) {
 		}), out
 	case "perm":
 		owner := w.didOf1(op.Owner)
+		if op.Sid != 0 {
+			owner = w.SidDid(op.Sid, 1)
+		}
 		p := saotypes.PermissionProposal{Owner: owner, DataId: op.DataId, ReadonlyDids: w.didsOf(op.RoDids), ReadwriteDids: w.didsOf(op.RwDids)}
-		sig := w.sign(op.Signer, &p)
-		sigValid := op.Signer != 0 && op.Signer-1 < len(w.Dids) && w.Dids[op.Signer-1].Did == p.Owner
+		sig, sigValid, sigDid := w.signFor(op, p.Owner, &p)
 		switch op.Tamper {
 		case "rw":
 			p.ReadwriteDids = append(p.ReadwriteDids, w.didOf1(op.Creator+1))
@@ -780,7 +886,7 @@ func (w *World) Exec(op *Op) (Result, M) {
 		}
 		out["msgProvider"] = w.Addr.ID(w.acct1(op.Provider))
 		out["sigValid"] = sigValid
-		out["sigDid"] = w.DidID(w.didOf1(op.Signer))
+		out["sigDid"] = w.DidID(sigDid)
 		out["p"] = M{"owner": w.DidID(p.Owner), "dataId": bs(p.DataId), "readonlyDids": w.dids(p.ReadonlyDids), "readwriteDids": w.dids(p.ReadwriteDids)}
 		return w.runTx(func(ctx sdk.Context) (M, error) {
 			_, err := saoSrv.UpdataPermission(sdk.WrapSDKContext(ctx), &saotypes.MsgUpdataPermission{Creator: creator, Proposal: p, JwsSignature: sig, Provider: w.acct1(op.Provider)})
